@@ -330,7 +330,9 @@ def finish(prop, tier, seed, level, results, t0, rule, functions_encoded, bounds
     violations, unrepro, inconc, samples, errors = [], [], [], [], []
     nontrivial = set()
     fam_count = {}
+    enc_valid = 0
     for r in results:
+        enc_valid += sum(1 for n in r.get("notes", []) if isinstance(n, dict) and "encoder_validated" in n)
         agg["obligations"] += r["obligations"]
         agg["discharged"] += r["discharged"]
         violations += r["violations"]
@@ -394,6 +396,7 @@ def finish(prop, tier, seed, level, results, t0, rule, functions_encoded, bounds
         "bounds": bounds,
         "families": fam_count,
         "solver": {**total.as_dict(), "engine": "z3 " + z3.get_version_string() + " (in-process), second opinion /usr/bin/z3 4.8.12"},
+        "encoder_validations": enc_valid,
         "unreproduced_sat": len(unrepro),
         "unreproduced_examples": unrepro[:3],
         "inconclusive": len(inconc),
